@@ -296,6 +296,21 @@ def quotient_cases(rng, quick):
         out.append(Case('alg_pow', line('alg_pow', f, [F(0), F(1)], e), nontrivial=False, tag='alg:pow:neg'))
     e = (1 << 66) + 5
     out.append(Case('alg_pow', line('alg_pow', [-1, 0, 1], [F(0), F(1)], e), oracle=o_val([F(0), F(1)], 'x^odd mod x^2-1'), tag='alg:pow:big'))
+    # exponents of more than one machine word (Pow<BigInt>): only elements of finite multiplicative order keep the numbers small.
+    # a = +-theta or +-theta^2 in a cyclotomic (or non-monic multiple of a cyclotomic) modulus has order m <= 24, so a^e = a^(e mod m);
+    # exponents with zero words, zero high bits in a word, all-ones words
+    one = [F(1)]
+    for f in ([1, 0, 1], [1, 1, 1], [1, 0, 0, 0, 1], [1, 1, 1, 1, 1], [1, 0, -1, 0, 1], [2, 2, 2], [-3, 0, -3], [1, -1, 1]):
+        th_ = [F(0), F(1)]
+        for a in (th_, [F(0), F(-1)], mulmod(th_, th_, f), [F(-1)]):
+            a = ptrim(a)
+            m, x = 1, a
+            while x != one and m < 30: x = mulmod(x, a, f); m += 1
+            if x != one: continue
+            for e in [1 << 64, (1 << 64) + 1, (1 << 64) + (1 << 63), (1 << 65) + 3, (1 << 128) + (1 << 64) + 1, 3 << 64, (1 << 127) - 1,
+                      (1 << 64) - 1, rng.getrandbits(70) | (1 << 69), rng.getrandbits(130) | (1 << 129), (rng.getrandbits(40) << 64) + rng.getrandbits(20)]:
+                out.append(Case('alg_pow', line('alg_pow', f, a, e), oracle=o_val(powmod_naive(a, e % m, f), 'a^e, a of order %d' % m),
+                                nontrivial=True, tag='alg:pow:multiword-exponent'))
     return out
 
 def quotient_edges(rng):
